@@ -33,6 +33,10 @@ CLAIMED["C09"] = dict(level="exploration", ref="DESIGN.md section 4 C09",
    text="The library's own seeded scheduler is the object under test. (A) SimpleBatcher driven by simulator-answered permutations (identity/reverse/rotation/riffle/last-block-first/PRNG) over n, batch size, validation ratio/mode and epochs: exact partition per epoch, len == batches yielded, disjoint covering split, stable split, contiguous tilings of generate_batches. (B) per-batch losses and gradients tapped through the real reconstruct() loop at fixed parameters for every divisor batch size: mean equals full batch. (C) seeded determinism checked as replay: two instances / reset-and-rerun give identical batch sequences and loss histories, another seed gives another schedule; the batches seen by the forward model form an exact partition. Sampling over configurations.",
    note="Trusts the tiny simulated ptychography problem (qsim/tinyptycho.py) as a representative instance; float32 tolerance 1e-4 (HEAD deviates <= 3e-7); autograd path and l1/l2 losses only; the optimizer update is skipped in (B) by overriding the public step_optimizers method.",
    technique="deterministic schedule simulation: simulator-owned permutation answers and batch-size knob, invariants per epoch, batch-invariance and seeded-replay oracles through the real reconstruction loop")
+CLAIMED["C18"] = dict(level="exploration", ref="DESIGN.md section 4 C18",
+   text="Seeded 4-D datasets (non-square scan and detector, positive asymmetric patterns) and a history of calls on ONE origin-model instance: calculate_origin / fit_origin_background / shift_origin_to under every batch size the public knob can produce, injected MemoryError after j batches followed by a retry with a smaller batch (the failed call must not change published state), planted plane/constant origins, planted integer origins (shift must equal np.roll), plus the dataset model's vectorised and looped paths and ptycho_utils.fit_origin; all compared with a float64 NumPy reference. The schedule dimension is the batch partition and the fault/retry history; the analytic oracles ride along.",
+   note="Trusts the float64 reference and the calibrated float32 tolerances (HEAD deviates <= 5e-7). Thin as a simulation target (DESIGN section 2 says so): most deciding power is seeded generation over batch partitions, call histories and allocation faults.",
+   technique="deterministic schedule simulation: batch-size knob, armed allocation failure + retry on a reused instance, float64 reference oracle")
 NA = {
  "C02": "single evaluation of a deterministic forward model at a known ground truth; no schedule, state, fault or persistence in the claim - a simulator would only be an input generator",
  "C06": "conservation laws of bin/fourier_resample/pad/crop as pure array->array maps (the operation-history aspect of the same methods is claimed under C03)",
@@ -45,7 +49,7 @@ NA = {
  "C17": "unwrapping is a deterministic function of field and mask; its merge order is fixed by the input, not by a scheduler",
  "C20": "range/monotonicity/inverse identities of stateless maps",
 }
-PENDING = {k: "claimed in DESIGN.md (section 4); its check is still under construction in this build session and therefore not yet registered" for k in ["C04","C05","C18"]}
+PENDING = {k: "claimed in DESIGN.md (section 4); its check is still under construction in this build session and therefore not yet registered" for k in ["C04","C05"]}
 
 def main():
     checks = []
